@@ -68,7 +68,10 @@ func (d *sliceTypeFieldTextDecoder) Decode(req *protocol.Request, params param.P
 				defaultValue = tagInfo.Default
 				found := checkRequireJSON(req, tagInfo)
 				if found {
-					err = nil
+					// a tag that is not itself required settles an earlier 'required' only if the body has the value
+					if tagInfo.Required || keyExist(req, tagInfo) {
+						err = nil
+					}
 				} else {
 					err = fmt.Errorf("'%s' field is a 'required' parameter, but the request does not have this parameter", tagInfo.Value)
 				}
